@@ -235,6 +235,21 @@ func scenarioLengths(c *harness.Ctx) {
 	if tp.Bool(1, 4) {
 		L = int32(tp.Choose(int(limit) + 104))
 	}
+	if tp.Bool(1, 4) {
+		// a plausible small length with something in the upper bytes (a decoder
+		// that drops or misplaces a byte reads it as a small frame)
+		small := int32(10 + tp.Choose(int(limit)-9))
+		switch tp.Choose(4) {
+		case 0:
+			L = small | int32(1+tp.Choose(127))<<24
+		case 1:
+			L = small | int32(uint32(0x80+tp.Choose(128))<<24)
+		case 2:
+			L = small&0xffff | int32(1+tp.Choose(255))<<16
+		default:
+			L = small | int32(1+tp.Choose(127))<<24 | int32(tp.Choose(256))<<16
+		}
+	}
 	mustReject := L < 10 || L > limit
 	if mustReject {
 		pLenReject.Hit()
